@@ -25,7 +25,8 @@ META = {
              " Also: the 'auto' method, wide-dynamic-range / full-range vo"
              'xel values, scale 0 replaced and the pyramid recomputed thro'
              'ugh the same handle; huge: target chunk sizes 128 / 256 (reg'
-             'ions of more than 2^23 voxels).'),
+             'ions of more than 2^23 voxels).'
+             " Round 14: the reference downscaler is constructed directly (not through get_downscaler's option handling)."),
     "trusted_base": ["the package's Downscaler applied to one whole array "
                      "(its correctness is C07's subject)",
                      "vlib/refs/pyramid_model.py for the must-succeed "
@@ -283,7 +284,15 @@ def check_case(ctx, case):
         explicit = case["method"]
         if explicit == "auto":
             explicit = "average" if info["type"] == "image" else "stride"
-        downscaler = downscaling.get_downscaler(explicit, None, opts)
+        # ... and is constructed directly (not through the option handling
+        # of get_downscaler, which the computation above went through)
+        if explicit == "average":
+            downscaler = downscaling.AveragingDownscaler(
+                None if case["outside"] is None else float(case["outside"]))
+        elif explicit == "majority":
+            downscaler = downscaling.MajorityDownscaler()
+        else:
+            downscaler = downscaling.StridingDownscaler()
         for i in range(len(scales) - 1):
             f = [1 if a == b else 2 for a, b in zip(scales[i]["size"],
                                                     scales[i + 1]["size"])]
